@@ -1,6 +1,16 @@
 # Human-written level texts per claimed property (used by tools/gen_manifest.py).
 HOOK_COMMITS = []
 META = {
+    "C20": {
+        "text": "Bounded model checking of the real adapter code: peersDiff over all membership-snapshot sequences with symbolic peer ids, the self-filter and ordering of WatchMessages/monitorTopic over scripted messages with symbolic bodies, channel-name symmetry/injectivity over symbolic ids, and the varint frame round trip plus arbitrary raw frames.",
+        "design_ref": "DESIGN.md §2 C20",
+        "note": "Trusted: gosym, z3, scripted coreiface PubSub stub. Bounds: 3 peers x 3/4 snapshots, 3/5 messages, ids <= 2/3 bytes, payloads <= 3/6 bytes, raw frames <= 11/12 bytes.",
+    },
+    "C12": {
+        "text": "Bounded model checking of the real message-handling code with the input fully symbolic: raw stream frames as arbitrary byte strings (every varint / declared length), decoded head messages with every field independently nil/empty/present. Any feasible panic path is a counterexample the solver instantiates.",
+        "design_ref": "DESIGN.md §2 C12",
+        "note": "Trusted: gosym, z3; encoding/json is over-approximated by 'error or any value of the message type' for head messages. Bounds: frames <= 11/12 bytes, <= 2 heads.",
+    },
     "C06": {
         "text": "Bounded model checking of the real kvIndex.UpdateIndex / All / Get (through a store built by the real InitBaseStore): for every listing of N put/delete operations with symbolic keys and values and every earlier index state, the solver shows All() and Get(k) equal the last-writer-wins replay.",
         "design_ref": "DESIGN.md §2 C06",
